@@ -42,6 +42,14 @@ class WithItems(Monitor):
         super(WithItems, self).__init__()
         self.n, self.conc, self.retry = n, conc, retry
         self.max_running = 0
+        self.seen = set()
+
+    def fire(self, msg, **detail):
+        # the same condition holds after every following commit: once
+        if detail.get('mech') in self.seen:
+            return
+        self.seen.add(detail.get('mech'))
+        super(WithItems, self).fire(msg, **detail)
 
     def on_event(self, ev, rec):
         if ev['kind'] != 'SNAP':
